@@ -593,6 +593,15 @@ def r9(ctx, sc):
             d = f.def_of(val)
             if d is not None and d.op == 'icmp' and d.pred == 'ne' and ('null',) in d.ops and is_file_value(flow.strip_casts(f, [o for o in d.ops if o != ('null',)][0]), x):
                 rep.ok('C10.R9', '%s %s:%s yy_fill_buffer := (input file != NULL)' % (v.name, c, x.line)); continue
+            # (file == NULL) ? 0 : 1 - clang's select for a conditional expression with constant arms (neutral diff m1P2)
+            if d is not None and d.op == 'select' and len(d.ops) == 3:
+                cd_ = f.def_of(d.ops[0]) if d.ops[0][0] == 'reg' else None
+                a1, a2 = S.strip_ext(f, d.ops[1]), S.strip_ext(f, d.ops[2])
+                if cd_ is not None and cd_.op == 'icmp' and cd_.pred in ('eq', 'ne') and ('null',) in cd_.ops and a1[0] == 'int' and a2[0] == 'int' \
+                   and is_file_value(flow.strip_casts(f, [o for o in cd_.ops if o != ('null',)][0]), x):
+                    null_arm, nonnull_arm = (a1, a2) if cd_.pred == 'eq' else (a2, a1)
+                    if null_arm[1] == 0:
+                        rep.ok('C10.R9', '%s %s:%s yy_fill_buffer := (input file == NULL) ? 0 : %d' % (v.name, c, x.line, nonnull_arm[1])); continue
             rep.fail('C10.R9', key, where(x), '%s stores a computed value into yy_fill_buffer that is not "the input file is non-null" [variant %s]' % (c, v.name), variant=v.describe())
     g = sc.fn('yy_scan_buffer')
     if g is not None:
